@@ -80,6 +80,15 @@ def zeros (n : Nat) : List Rat := List.replicate n 0
 
 def vals (a : Ad) : Vec := a.map (·.v)
 
+/-- forget the Jacobian -/
+def strip : Value → Value
+  | .ad a => .vec (vals a)
+  | v => v
+
+def Value.isAd : Value → Bool
+  | .ad _ => true
+  | _ => false
+
 /-- integer power, total: negative exponents through the inverse (`0⁻¹ = 0`, guarded by the callers) -/
 def ipow (x : Rat) (n : Int) : Rat := if 0 ≤ n then x ^ n.toNat else (x⁻¹) ^ (-n).toNat
 
@@ -88,8 +97,46 @@ def isInt (c : Rat) : Bool := c.den == 1 && c.num.natAbs ≤ 64
 
 def hasZero (v : Vec) : Bool := v.any (· == 0)
 
-/-- `x ** n` and its derivative factor `n * x ** (n-1)` are finite for every entry -/
-def powOk (x : Rat) (n : Int) : Bool := !(x == 0 && (n < 0 || n - 1 < 0))
+/-- Real powers and logarithms are PARAMETERS of the model: `pow x c` for a non-integer exponent,
+    `log x`, and where they are finite real numbers.  The theorems hold for every interpretation;
+    the driver uses `PowFns.none` (nothing defined: such operations answer `unsupported`). -/
+structure PowFns where
+  pow : Rat → Rat → Rat
+  log : Rat → Rat
+  powOk : Rat → Rat → Bool
+  logOk : Rat → Bool
+
+def PowFns.none : PowFns := ⟨fun _ _ => 0, fun _ => 0, fun _ _ => false, fun _ => false⟩
+
+variable (P : PowFns)
+
+/-- `x ** c`: exact for integer exponents, the parameter otherwise -/
+def powE (x c : Rat) : Rat := if isInt c then ipow x c.num else P.pow x c
+def powEOk (x c : Rat) : Bool := if isInt c then !(x == 0 && decide (c.num < 0)) else P.powOk x c
+/-- `x ** (c-1)`, the factor in the derivative of `x ** c` -/
+def powD (x c : Rat) : Rat := if isInt c then ipow x (c.num - 1) else P.pow x (c - 1)
+def powDOk (x c : Rat) : Bool := if isInt c then !(x == 0 && decide (c.num - 1 < 0)) else P.powOk x (c - 1)
+/-- `x ** c` and `c * x ** (c-1)` are finite -/
+def powOk (x c : Rat) : Bool := powEOk P x c && powDOk P x c
+/-- what the model answers when a power is not finite / not defined -/
+def powErr (c : Rat) : Err := if isInt c then .div0 else .unsupported
+def powErrV (v : Vec) : Err := if v.all isInt then .div0 else .unsupported
+
+/-- numpy broadcasting of a 1-d array to length `n`: same length, or length 1 repeated -/
+def expand (n : Nat) (v : Vec) : Option Vec :=
+  if v.length = n then some v
+  else match v with
+    | [c] => some (List.replicate n c)
+    | _ => none
+
+/-- numpy broadcasting of two 1-d arrays against each other -/
+def bvv (v w : Vec) : Option (Vec × Vec) :=
+  match expand v.length w with
+  | some w' => some (v, w')
+  | none =>
+    match expand w.length v with
+    | some v' => some (v', w)
+    | none => none
 
 def dot (r v : List Rat) : Rat := (List.zipWith (· * ·) r v).foldl (· + ·) 0
 
@@ -110,8 +157,11 @@ def pyNeg : Value → R Value
 /-- `AdArray.__add__` -/
 def adAdd (a : Ad) : Value → R Value
   | .scalar c => .ok (.ad (a.map fun u => ⟨u.v + c, u.g⟩))
-  | .vec v => if a.length ≠ v.length then .error .valueError
-      else .ok (.ad (List.zipWith (fun u c => ⟨u.v + c, u.g⟩) a v))
+  | .vec v =>
+      -- `self.val + other` broadcasts; the constructor then demands one Jacobian row per value
+      match expand a.length v with
+      | some w => .ok (.ad (List.zipWith (fun u c => ⟨u.v + c, u.g⟩) a w))
+      | none => .error .valueError
   | .mat _ => .error .valueError
   | .ad b => if a.length ≠ b.length then .error .valueError
       else .ok (.ad (List.zipWith (fun u w => ⟨u.v + w.v, gadd u.g w.g⟩) a b))
@@ -148,29 +198,46 @@ def adRmul (a : Ad) : Value → R Value
   | .slicer _ => .error .valueError
   | .slicers _ => .error .valueError
 
-/-- `AdArray.__pow__` (integer exponents) -/
+/-- one row of `x ** c` with a constant exponent -/
+def dPowC (u : Dual) (c : Rat) : Dual := ⟨powE P u.v c, gscale (c * powD P u.v c) u.g⟩
+/-- one row of `x ** y`: `y x^(y-1) dx + x^y log x dy` -/
+def dPow (u w : Dual) : Dual :=
+  ⟨powE P u.v w.v, gadd (gscale (w.v * powD P u.v w.v) u.g) (gscale (powE P u.v w.v * P.log u.v) w.g)⟩
+/-- one row of `c ** x`: `c^x log c dx` -/
+def dCPow (c : Rat) (u : Dual) : Dual := ⟨powE P c u.v, gscale (powE P c u.v * P.log c) u.g⟩
+
+/-- `AdArray.__pow__` -/
 def adPow (a : Ad) : Value → R Value
   | .scalar c =>
-      if !isInt c then .error .unsupported
-      else if a.any (fun u => !powOk u.v c.num) then .error .div0
-      else .ok (.ad (a.map fun u => ⟨ipow u.v c.num, gscale (c * ipow u.v (c.num - 1)) u.g⟩))
+      if a.any (fun u => !powOk P u.v c) then .error (powErr c)
+      else .ok (.ad (a.map fun u => ⟨powE P u.v c, gscale (c * powD P u.v c) u.g⟩))
   | .vec v =>
-      if a.length ≠ v.length then .error .valueError
-      else if v.any (fun c => !isInt c) then .error .unsupported
-      else if (List.zipWith (fun (u : Dual) (c : Rat) => !powOk u.v c.num) a v).any id then .error .div0
-      else .ok (.ad (List.zipWith
-        (fun u c => ⟨ipow u.v c.num, gscale (c * ipow u.v (c.num - 1)) u.g⟩) a v))
+      match expand a.length v with
+      | none => .error .valueError
+      | some w =>
+        if (List.zipWith (fun (u : Dual) (c : Rat) => !powOk P u.v c) a w).any id then .error (powErrV v)
+        else .ok (.ad (List.zipWith (fun u c => ⟨powE P u.v c, gscale (c * powD P u.v c) u.g⟩) a w))
   | .mat _ => .error .valueError
-  | .ad b => if a.length ≠ b.length then .error .valueError else .error .unsupported  -- needs log
+  | .ad b => if a.length ≠ b.length then .error .valueError
+      else if (List.zipWith (fun (u w : Dual) => !(powOk P u.v w.v && P.logOk u.v)) a b).any id then .error .unsupported
+      else .ok (.ad (List.zipWith (fun u w =>
+        ⟨powE P u.v w.v, gadd (gscale (w.v * powD P u.v w.v) u.g) (gscale (powE P u.v w.v * P.log u.v) w.g)⟩) a b))
   | .slicer _ => .error .unsupported
   | .slicers _ => .error .valueError
 
-/-- `AdArray.__rpow__`: `c ** x` needs the logarithm, outside the rational model -/
-def adRpow (_a : Ad) : Value → R Value
-  | .scalar _ => .error .unsupported
-  | .vec _ => .error .unsupported
+/-- `AdArray.__rpow__`: `other ** self` -/
+def adRpow (a : Ad) : Value → R Value
+  | .scalar c =>
+      if a.any (fun u => !(powEOk P c u.v && P.logOk c)) then .error .unsupported
+      else .ok (.ad (a.map fun u => ⟨powE P c u.v, gscale (powE P c u.v * P.log c) u.g⟩))
+  | .vec v =>
+      match expand a.length v with
+      | none => .error .valueError
+      | some w =>
+        if (List.zipWith (fun (u : Dual) (c : Rat) => !(powEOk P c u.v && P.logOk c)) a w).any id then .error .unsupported
+        else .ok (.ad (List.zipWith (fun u c => ⟨powE P c u.v, gscale (powE P c u.v * P.log c) u.g⟩) a w))
   | .mat _ => .error .valueError
-  | .ad _ => .error .unsupported
+  | .ad b => if a.length ≠ b.length then .error .valueError else adPow P b (.ad a)   -- other.__pow__(self)
   | .slicer _ => .error .valueError
   | .slicers _ => .error .valueError
 
@@ -184,7 +251,7 @@ def adTruediv (a : Ad) : Value → R Value
   | .mat _ => .error .valueError
   | .ad b => if a.length ≠ b.length then .error .valueError
       else do
-        let p ← adPow b (.scalar (-1))     -- other.__pow__(-1.0)
+        let p ← adPow P b (.scalar (-1))   -- other.__pow__(-1.0)
         adMul a p
   | .slicer _ => .error .unsupported
   | .slicers _ => .error .valueError
@@ -192,17 +259,17 @@ def adTruediv (a : Ad) : Value → R Value
 /-- `AdArray.__rtruediv__` -/
 def adRtruediv (a : Ad) : Value → R Value
   | .scalar c => do
-      match ← adPow a (.scalar (-1)) with
+      match ← adPow P a (.scalar (-1)) with
       | .ad p => adMul p (.scalar c)       -- self.__pow__(-1.0) * other
       | _ => .error .unsupported
   | .vec v => do
-      match ← adPow a (.scalar (-1)) with
+      match ← adPow P a (.scalar (-1)) with
       | .ad p => adMul p (.vec v)
       | _ => .error .unsupported
   | .mat _ => .error .valueError           -- `self.__pow__(-1.0) * other`: `__mul__` rejects sparse matrices
   | .ad b => if a.length ≠ b.length then .error .valueError
       else do
-        let p ← adPow a (.scalar (-1))
+        let p ← adPow P a (.scalar (-1))
         adMul b p                           -- other.__mul__(self.__pow__(-1.0))
   | .slicer _ => .error .valueError
   | .slicers _ => .error .valueError
@@ -284,14 +351,15 @@ def sumSlicers (N : Nat) (ps : List Slicer) (x : Value) : R Value :=
 
 /-! ### python dispatch of `l ∘ r` on parsed values -/
 
+/-- elementwise numpy operation on two 1-d arrays, with broadcasting -/
 def vecBin (f : Rat → Rat → Rat) (v w : Vec) : R Value :=
-  if v.length ≠ w.length then .error .valueError else .ok (.vec (List.zipWith f v w))
+  match bvv v w with
+  | some (v', w') => .ok (.vec (List.zipWith f v' w'))
+  | none => .error .valueError
 
-/-- scalar/vector power with integer exponents (numpy / python float) -/
+/-- scalar/vector power (numpy / python float) -/
 def powEntry (x c : Rat) : R Rat :=
-  if !isInt c then .error .unsupported
-  else if x == 0 && c.num < 0 then .error .div0
-  else .ok (ipow x c.num)
+  if powEOk P x c then .ok (powE P x c) else .error (powErr c)
 
 def pyScalar (c : Rat) (op : Op) : Value → R Value
   | .scalar d =>
@@ -300,7 +368,7 @@ def pyScalar (c : Rat) (op : Op) : Value → R Value
       | .sub => .ok (.scalar (c - d))
       | .mul => .ok (.scalar (c * d))
       | .div => if d == 0 then .error .div0 else .ok (.scalar (c / d))
-      | .pow => do let p ← powEntry c d; pure (.scalar p)
+      | .pow => do let p ← powEntry P c d; pure (.scalar p)
       | .matmul => .error .typeError
   | .vec v =>
       match op with
@@ -308,12 +376,12 @@ def pyScalar (c : Rat) (op : Op) : Value → R Value
       | .sub => .ok (.vec (v.map (c - ·)))
       | .mul => .ok (.vec (v.map (c * ·)))
       | .div => if hasZero v then .error .div0 else .ok (.vec (v.map (c / ·)))
-      | .pow => do let p ← v.mapM (powEntry c); pure (.vec p)
+      | .pow => do let p ← v.mapM (powEntry P c); pure (.vec p)
       | .matmul => .error .valueError
   | .mat m =>
       match op with
-      | .add => .error .unsupported
-      | .sub => .error .unsupported
+      | .add => if c == 0 then .ok (.mat m) else .error .notImplemented   -- scipy: only the scalar 0 can be added
+      | .sub => if c == 0 then .ok (.mat ⟨m.nc, m.rows.map gneg⟩) else .error .notImplemented
       | .mul => .ok (matScale c m)
       | .div => .error .typeError
       | .pow => .error .typeError
@@ -323,8 +391,8 @@ def pyScalar (c : Rat) (op : Op) : Value → R Value
       | .add => adAdd a (.scalar c)          -- __radd__
       | .sub => adRsub a (.scalar c)
       | .mul => adRmul a (.scalar c)
-      | .div => adRtruediv a (.scalar c)
-      | .pow => adRpow a (.scalar c)
+      | .div => adRtruediv P a (.scalar c)
+      | .pow => adRpow P a (.scalar c)
       | .matmul => adRmatmul 0 a (.scalar c)
   | .slicer _ => .error .unsupported         -- reverse methods of ArraySlicer: pending operand
   | .slicers _ => .error .unsupported        -- TypeError for a float, list repetition for the int 0 of an empty sum
@@ -336,17 +404,23 @@ def pyVec (v : Vec) (op : Op) : Value → R Value
       | .sub => .ok (.vec (v.map (· - c)))
       | .mul => .ok (.vec (v.map (· * c)))
       | .div => if c == 0 then .error .div0 else .ok (.vec (v.map (· / c)))
-      | .pow => do let p ← v.mapM (fun x => powEntry x c); pure (.vec p)
+      | .pow => do let p ← v.mapM (fun x => powEntry P x c); pure (.vec p)
       | .matmul => .error .valueError
   | .vec w =>
       match op with
       | .add => vecBin (· + ·) v w
       | .sub => vecBin (· - ·) v w
       | .mul => vecBin (· * ·) v w
-      | .div => if v.length ≠ w.length then .error .valueError
-          else if hasZero w then .error .div0 else .ok (.vec (List.zipWith (· / ·) v w))
-      | .pow => if v.length ≠ w.length then .error .valueError
-          else do let p ← (List.zipWith (fun x c => (x, c)) v w).mapM (fun p => powEntry p.1 p.2); pure (.vec p)
+      | .div =>
+          match bvv v w with
+          | none => .error .valueError
+          | some (v', w') => if hasZero w then .error .div0 else .ok (.vec (List.zipWith (· / ·) v' w'))
+      | .pow =>
+          match bvv v w with
+          | none => .error .valueError
+          | some (v', w') => do
+            let p ← (List.zipWith (fun x c => (x, c)) v' w').mapM (fun p => powEntry P p.1 p.2)
+            pure (.vec p)
       | .matmul => .error .unsupported         -- dot product, a numpy scalar
   | .mat _ =>
       match op with
@@ -363,10 +437,12 @@ def pyVec (v : Vec) (op : Op) : Value → R Value
 def pyMat (N : Nat) (m : Mat) (op : Op) : Value → R Value
   | .scalar c =>
       match op with
+      | .add => if c == 0 then .ok (.mat m) else .error .notImplemented
+      | .sub => if c == 0 then .ok (.mat m) else .error .notImplemented
       | .mul => .ok (matScale c m)
       | .div => if c == 0 then .error .div0 else .ok (.mat ⟨m.nc, m.rows.map fun r => r.map (· / c)⟩)
+      | .pow => .error .unsupported
       | .matmul => .error .valueError
-      | _ => .error .unsupported
   | .vec v =>
       match op with
       | .matmul => matVec m v
@@ -382,7 +458,7 @@ def pyMat (N : Nat) (m : Mat) (op : Op) : Value → R Value
       | .add => adAdd a (.mat m)               -- scipy returns NotImplemented, then AdArray.__radd__
       | .sub => adRsub a (.mat m)
       | .mul => adRmul a (.mat m)
-      | .div => adRtruediv a (.mat m)
+      | .div => adRtruediv P a (.mat m)
       | .pow => .error .unsupported
       | .matmul => adRmatmul N a (.mat m)
   | .slicer _ => .error .unsupported
@@ -393,16 +469,16 @@ def pyAd (a : Ad) (op : Op) (r : Value) : R Value :=
   | .add => adAdd a r
   | .sub => adSub a r
   | .mul => adMul a r
-  | .div => adTruediv a r
-  | .pow => adPow a r
+  | .div => adTruediv P a r
+  | .pow => adPow P a r
   | .matmul => .error .valueError              -- AdArray.__matmul__ always raises
 
 def py (N : Nat) (op : Op) (l r : Value) : R Value :=
   match l with
-  | .scalar c => pyScalar c op r
-  | .vec v => pyVec v op r
-  | .mat m => pyMat N m op r
-  | .ad a => pyAd a op r
+  | .scalar c => pyScalar P c op r
+  | .vec v => pyVec P v op r
+  | .mat m => pyMat P N m op r
+  | .ad a => pyAd P a op r
   | .slicer s =>
       match op with
       | .matmul => slicerMatmul N s r
@@ -415,29 +491,29 @@ def parseBin (N : Nat) (op : Op) (l r : Value) : R Value :=
   match op with
   | .add =>
       match l with
-      | .vec _ => py N .add r l                          -- flipped
-      | _ => py N .add l r
+      | .vec _ => py P N .add r l                          -- flipped
+      | _ => py P N .add l r
   | .sub =>
       match l with
-      | .vec _ => do let res ← py N .sub r l; pyNeg res  -- flipped, then negated
-      | _ => py N .sub l r
+      | .vec _ => do let res ← py P N .sub r l; pyNeg res  -- flipped, then negated
+      | _ => py P N .sub l r
   | .mul =>
       match l, r with
-      | .vec _, .ad _ => py N .mul r l                   -- flipped
-      | _, _ => py N .mul l r
+      | .vec _, .ad _ => py P N .mul r l                   -- flipped
+      | _, _ => py P N .mul l r
   | .div =>
       match l, r with
-      | .vec _, .ad a => adRtruediv a l
-      | _, _ => py N .div l r
+      | .vec _, .ad a => adRtruediv P a l
+      | _, _ => py P N .div l r
   | .pow =>
       match l, r with
-      | .vec _, .ad a => adRpow a l
-      | _, _ => py N .pow l r
+      | .vec _, .ad a => adRpow P a l
+      | _, _ => py P N .pow l r
   | .matmul =>
       match l, r with
       | .slicers ps, _ => sumSlicers N ps r
       | .vec _, .ad a => adRmatmul N a l
-      | _, _ => py N .matmul l r
+      | _, _ => py P N .matmul l r
 
 /-! ### specification: forward-mode rules in mathematical operand order, closed formulas per row -/
 
@@ -456,8 +532,6 @@ def dCDiv (c : Rat) (u : Dual) : Dual := ⟨c / u.v, gscale (-c / (u.v * u.v)) u
 /-- quotient rule -/
 def dDiv (u w : Dual) : Dual :=
   ⟨u.v / w.v, gadd (gscale (1 / w.v) u.g) (gscale (-u.v / (w.v * w.v)) w.g)⟩
-/-- power rule, integer exponent -/
-def dPowC (u : Dual) (c : Rat) : Dual := ⟨ipow u.v c.num, gscale (c * ipow u.v (c.num - 1)) u.g⟩
 
 /-- rows of `a` combined with the entries of `v` (`f row entry`), sizes must agree -/
 def zipAV (f : Dual → Rat → Dual) (a : Ad) (v : Vec) : R Value :=
@@ -466,16 +540,41 @@ def zipAV (f : Dual → Rat → Dual) (a : Ad) (v : Vec) : R Value :=
 def zipAA (f : Dual → Dual → Dual) (a b : Ad) : R Value :=
   if a.length ≠ b.length then .error .valueError else .ok (.ad (List.zipWith f a b))
 
+/-- rows of `a` combined with the entries of `v` broadcast to the length of `a` -/
+def bAV (f : Dual → Rat → Dual) (a : Ad) (v : Vec) : R Value :=
+  match expand a.length v with
+  | some w => .ok (.ad (List.zipWith f a w))
+  | none => .error .valueError
+
+/-- power rule `x ** c`, constant exponent -/
 def dPowS (a : Ad) (c : Rat) : R Value :=
-  if !isInt c then .error .unsupported
-  else if a.any (fun u => !powOk u.v c.num) then .error .div0
-  else .ok (.ad (a.map fun u => dPowC u c))
+  if a.any (fun u => !powOk P u.v c) then .error (powErr c)
+  else .ok (.ad (a.map fun u => dPowC P u c))
 
 def dPowV (a : Ad) (v : Vec) : R Value :=
-  if a.length ≠ v.length then .error .valueError
-  else if v.any (fun c => !isInt c) then .error .unsupported
-  else if (List.zipWith (fun (u : Dual) (c : Rat) => !powOk u.v c.num) a v).any id then .error .div0
-  else .ok (.ad (List.zipWith dPowC a v))
+  match expand a.length v with
+  | none => .error .valueError
+  | some w =>
+    if (List.zipWith (fun (u : Dual) (c : Rat) => !powOk P u.v c) a w).any id then .error (powErrV v)
+    else .ok (.ad (List.zipWith (dPowC P) a w))
+
+/-- `x ** y` with both depending on the variables -/
+def dPowA (a b : Ad) : R Value :=
+  if a.length ≠ b.length then .error .valueError
+  else if (List.zipWith (fun (u w : Dual) => !(powOk P u.v w.v && P.logOk u.v)) a b).any id then .error .unsupported
+  else .ok (.ad (List.zipWith (dPow P) a b))
+
+/-- `c ** x` -/
+def dCPowS (c : Rat) (a : Ad) : R Value :=
+  if a.any (fun u => !(powEOk P c u.v && P.logOk c)) then .error .unsupported
+  else .ok (.ad (a.map (dCPow P c)))
+
+def dCPowV (v : Vec) (a : Ad) : R Value :=
+  match expand a.length v with
+  | none => .error .valueError
+  | some w =>
+    if (List.zipWith (fun (u : Dual) (c : Rat) => !(powEOk P c u.v && P.logOk c)) a w).any id then .error .unsupported
+    else .ok (.ad (List.zipWith (fun u c => dCPow P c u) a w))
 
 /-- AdArray on the left -/
 def directAd (a : Ad) (op : Op) : Value → R Value
@@ -485,16 +584,16 @@ def directAd (a : Ad) (op : Op) : Value → R Value
       | .sub => .ok (.ad (a.map (dSubC · c)))
       | .mul => .ok (.ad (a.map (dMulC · c)))
       | .div => if c == 0 then .error .div0 else .ok (.ad (a.map (dDivC · c)))
-      | .pow => dPowS a c
+      | .pow => dPowS P a c
       | .matmul => .error .valueError
   | .vec v =>
       match op with
-      | .add => zipAV dAddC a v
-      | .sub => zipAV dSubC a v
+      | .add => bAV dAddC a v
+      | .sub => bAV dSubC a v
       | .mul => zipAV dMulC a v
       | .div => if a.length ≠ v.length then .error .valueError
           else if hasZero v then .error .div0 else zipAV dDivC a v
-      | .pow => dPowV a v
+      | .pow => dPowV P a v
       | .matmul => .error .valueError
   | .mat _ => .error .valueError
   | .ad b =>
@@ -504,7 +603,7 @@ def directAd (a : Ad) (op : Op) : Value → R Value
       | .mul => zipAA dMul a b
       | .div => if a.length ≠ b.length then .error .valueError
           else if hasZero (vals b) then .error .div0 else zipAA dDiv a b
-      | .pow => if a.length ≠ b.length then .error .valueError else .error .unsupported
+      | .pow => dPowA P a b
       | .matmul => .error .valueError
   | .slicer _ =>
       match op with
@@ -523,23 +622,23 @@ def directSA (c : Rat) (a : Ad) : Op → R Value
   | .sub => .ok (.ad (a.map (dCSub c)))
   | .mul => .ok (.ad (a.map (dCMul c)))
   | .div => if hasZero (vals a) then .error .div0 else .ok (.ad (a.map (dCDiv c)))
-  | .pow => .error .unsupported
+  | .pow => dCPowS P c a
   | .matmul => .error .valueError
 
 /-- AdArray on the right, vector on the left (row `i` is `rule v[i] a[i]`) -/
 def directVA (v : Vec) (a : Ad) : Op → R Value
-  | .add => zipAV (fun u c => dCAdd c u) a v
-  | .sub => zipAV (fun u c => dCSub c u) a v
+  | .add => bAV (fun u c => dCAdd c u) a v
+  | .sub => bAV (fun u c => dCSub c u) a v
   | .mul => zipAV (fun u c => dCMul c u) a v
   | .div => if hasZero (vals a) then .error .div0 else zipAV (fun u c => dCDiv c u) a v
-  | .pow => .error .unsupported
+  | .pow => dCPowV P v a
   | .matmul => .error .valueError
 
 def directBin (N : Nat) (op : Op) (l r : Value) : R Value :=
   match l, r with
-  | .ad a, _ => directAd a op r
-  | .scalar c, .ad a => directSA c a op
-  | .vec v, .ad a => directVA v a op
+  | .ad a, _ => directAd P a op r
+  | .scalar c, .ad a => directSA P c a op
+  | .vec v, .ad a => directVA P v a op
   | .mat m, .ad a =>
       match op with
       | .matmul => adRmatmul N a (.mat m)
@@ -554,24 +653,24 @@ def directBin (N : Nat) (op : Op) (l r : Value) : R Value :=
       match op with
       | .add => .ok (.vec (v.map (· + c)))
       | .sub => .ok (.vec (v.map (· - c)))
-      | _ => py N op l r
+      | _ => py P N op l r
   | .vec v, .vec w =>
       match op with
       | .add => vecBin (· + ·) v w
       | .sub => vecBin (· - ·) v w
-      | _ => py N op l r
+      | _ => py P N op l r
   | .vec _, .mat _ =>
       match op with
       | .add => .error .unsupported
       | .sub => .error .unsupported
-      | _ => py N op l r
+      | _ => py P N op l r
   | .vec _, .slicer _ =>
       match op with
       | .add => .error .valueError
       | .sub => .error .valueError
-      | _ => py N op l r
+      | _ => py P N op l r
   | .vec _, .slicers _ => .error .unsupported
-  | _, _ => py N op l r
+  | _, _ => py P N op l r
 
 /-! ### operator trees -/
 
@@ -580,6 +679,14 @@ inductive FExpr
   | x | y
   | const (c : Rat)
   | add (a b : FExpr) | sub (a b : FExpr) | mul (a b : FExpr)
+deriving DecidableEq, Repr
+
+/-- a wrapped function: `pp.ad.Function` with a polynomial body, or a `pp.ad.DiagonalJacobianFunction`
+    (values from the body applied to the plain values, Jacobian `m1 * jac(arg1) [+ m2 * jac(arg2)]`; a
+    one-argument function carries one multiplier) -/
+inductive Func
+  | poly (f : FExpr)
+  | diag (f : FExpr) (m1 : Rat) (m2 : Option Rat)
 deriving DecidableEq, Repr
 
 inductive Leaf
@@ -598,8 +705,8 @@ inductive OpTree
   | leaf (l : Leaf)
   | projList (ps : List Slicer)
   | bin (op : Op) (a b : OpTree)
-  | func1 (f : FExpr) (a : OpTree)
-  | func2 (f : FExpr) (a b : OpTree)
+  | func1 (f : Func) (a : OpTree)
+  | func2 (f : Func) (a b : OpTree)
 deriving DecidableEq, Repr
 
 structure Env where
@@ -608,7 +715,7 @@ structure Env where
   timeVals : List Vec           -- stored time-step solutions, by time-step index
   tdIter : List Vec             -- time-dependent arrays: values at iterate index 0, by array id
   tdTime : List (List Vec)      -- time-dependent arrays: stored time-step values, by array id
-deriving Repr
+  P : PowFns := PowFns.none     -- interpretation of real powers / logarithms
 
 def Env.N (e : Env) : Nat := e.state.length
 
@@ -688,12 +795,49 @@ def FExpr.eval (N : Nat) (x y : Value) : FExpr → R Value
   | .x => .ok x
   | .y => .ok y
   | .const c => .ok (.scalar c)
-  | .add a b => do let p ← a.eval N x y; let q ← b.eval N x y; directBin N .add p q
-  | .sub a b => do let p ← a.eval N x y; let q ← b.eval N x y; directBin N .sub p q
-  | .mul a b => do let p ← a.eval N x y; let q ← b.eval N x y; directBin N .mul p q
+  | .add a b => do let p ← a.eval N x y; let q ← b.eval N x y; directBin P N .add p q
+  | .sub a b => do let p ← a.eval N x y; let q ← b.eval N x y; directBin P N .sub p q
+  | .mul a b => do let p ← a.eval N x y; let q ← b.eval N x y; directBin P N .mul p q
 
-def applyFunc (N : Nat) (f : FExpr) (x y : Value) : R Value :=
-  match f.eval N x y with
+def scaleJac (m : Rat) (a : Ad) : List (List Rat) := a.map (fun u => gscale m u.g)
+
+/-- `get_jacobian` of a DiagonalJacobianFunction: `sum(arg.jac * m …).tocsr()` over the AdArray arguments
+    that have a multiplier -/
+def diagJac (m1 : Rat) (m2 : Option Rat) (x y : Value) : R (List (List Rat)) :=
+  let j1 : Option (List (List Rat)) := match x with
+    | .ad a => some (scaleJac m1 a)
+    | _ => none
+  let j2 : Option (List (List Rat)) := match m2, y with
+    | some m, .ad b => some (scaleJac m b)
+    | _, _ => none
+  match j1, j2 with
+  | none, none => .error .valueError              -- sum([]) is the int 0: no `.tocsr()`
+  | some j, none => .ok j
+  | none, some k => .ok k
+  | some j, some k => if j.length ≠ k.length then .error .valueError else .ok (List.zipWith gadd j k)
+
+/-- `AdArray(values, jac)` for the values returned by `get_values` -/
+def mkDiag (v : Value) (rows : List (List Rat)) : R Value :=
+  match v with
+  | .vec w => if w.length ≠ rows.length then .error .valueError
+      else .ok (.ad (List.zipWith (fun c g => (⟨c, g⟩ : Dual)) w rows))
+  | .scalar _ => .error .unsupported    -- a float value is promoted to a 1-vector only with derivatives
+  | _ => .error .valueError
+
+/-- `DiagonalJacobianFunction.func`: `get_values` on the plain values; with an AdArray among the arguments
+    also `get_jacobian` and the AdArray constructor -/
+def applyDiag (N : Nat) (f : FExpr) (m1 : Rat) (m2 : Option Rat) (x y : Value) : R Value := do
+  let v ← f.eval P N (strip x) (strip y)
+  if !(x.isAd || y.isAd) then pure v
+  else do
+    let rows ← diagJac m1 m2 x y
+    mkDiag v rows
+
+def applyFunc (N : Nat) (F : Func) (x y : Value) : R Value :=
+  let r := match F with
+    | .poly f => f.eval P N x y
+    | .diag f m1 m2 => applyDiag P N f m1 m2 x y
+  match r with
   | .ok v => .ok v
   | .error e => .error (funcErr e)
 
@@ -704,14 +848,14 @@ def parse (deriv : Bool) (e : Env) : OpTree → R Value
   | .bin op a b => do
       let x ← parse deriv e a
       let y ← parse deriv e b
-      parseBin e.N op x y
+      parseBin e.P e.N op x y
   | .func1 f a => do
       let x ← parse deriv e a
-      applyFunc e.N f x x
+      applyFunc e.P e.N f x x
   | .func2 f a b => do
       let x ← parse deriv e a
       let y ← parse deriv e b
-      applyFunc e.N f x y
+      applyFunc e.P e.N f x y
 
 /-- the same expression evaluated directly with the forward-mode rules -/
 def direct (deriv : Bool) (e : Env) : OpTree → R Value
@@ -720,14 +864,14 @@ def direct (deriv : Bool) (e : Env) : OpTree → R Value
   | .bin op a b => do
       let x ← direct deriv e a
       let y ← direct deriv e b
-      directBin e.N op x y
+      directBin e.P e.N op x y
   | .func1 f a => do
       let x ← direct deriv e a
-      applyFunc e.N f x x
+      applyFunc e.P e.N f x x
   | .func2 f a b => do
       let x ← direct deriv e a
       let y ← direct deriv e b
-      applyFunc e.N f x y
+      applyFunc e.P e.N f x y
 
 def zeroJac (N : Nat) (v : Vec) : Ad := v.map (fun c => ⟨c, zeros N⟩)
 
@@ -749,6 +893,67 @@ def evaluate (deriv : Bool) (e : Env) (t : OpTree) : R Value := do
 def evaluateDirect (deriv : Bool) (e : Env) (t : OpTree) : R Value := do
   let v ← direct deriv e t
   finish e.N deriv v
+
+/-! ### several operators in one call, with the parser's cache of parsed leaves -/
+
+/-- `AdParser._cache`: parsed non-variable leaves.  The real dictionary is keyed by operator identity; the
+    model keys it by the leaf itself (two equal leaves parse to the same value anyway), which covers every
+    real hit. -/
+abbrev Cache := List (Leaf × Value)
+
+def cacheGet : Cache → Leaf → Option Value
+  | [], _ => none
+  | (k, v) :: rest, l => if k = l then some v else cacheGet rest l
+
+/-- variables are never cached -/
+def Leaf.cached : Leaf → Bool
+  | .var _ _ _ _ => false
+  | _ => true
+
+/-- `_evaluate_single` with the cache threaded through -/
+def parseC (deriv : Bool) (e : Env) : OpTree → Cache → R (Value × Cache)
+  | .leaf l, c =>
+      if l.cached then
+        match cacheGet c l with
+        | some v => .ok (v, c)
+        | none => do
+            let v ← parseLeaf deriv e l
+            pure (v, (l, v) :: c)
+      else do
+        let v ← parseLeaf deriv e l
+        pure (v, c)
+  | .projList ps, c => .ok (.slicers ps, c)
+  | .bin op a b, c => do
+      let r1 ← parseC deriv e a c
+      let r2 ← parseC deriv e b r1.2
+      let z ← parseBin e.P e.N op r1.1 r2.1
+      pure (z, r2.2)
+  | .func1 f a, c => do
+      let r1 ← parseC deriv e a c
+      let z ← applyFunc e.P e.N f r1.1 r1.1
+      pure (z, r1.2)
+  | .func2 f a b, c => do
+      let r1 ← parseC deriv e a c
+      let r2 ← parseC deriv e b r1.2
+      let z ← applyFunc e.P e.N f r1.1 r2.1
+      pure (z, r2.2)
+
+def parseListC (deriv : Bool) (e : Env) : List OpTree → Cache → R (List Value)
+  | [], _ => .ok []
+  | t :: ts, c => do
+      let r ← parseC deriv e t c
+      let vs ← parseListC deriv e ts r.2
+      pure (r.1 :: vs)
+
+/-- `EquationSystem.evaluate([op_1, …, op_k], derivative, state)`: all operators are parsed first (one
+    cache, cleared afterwards), then every result is post-processed -/
+def evaluateList (deriv : Bool) (e : Env) (ts : List OpTree) : R (List Value) := do
+  let vs ← parseListC deriv e ts []
+  vs.mapM (finish e.N deriv)
+
+/-- every cached entry is what its leaf parses to -/
+def CacheOk (deriv : Bool) (e : Env) (c : Cache) : Prop :=
+  ∀ p ∈ c, parseLeaf deriv e p.1 = .ok p.2
 
 /-! ### building trees: python expressions over operators and raw numbers / arrays -/
 
@@ -818,8 +1023,8 @@ inductive PyExpr
   | neg (a : PyExpr)
   | prevTime (steps : Nat) (a : PyExpr)
   | prevIter (steps : Nat) (a : PyExpr)
-  | call1 (f : FExpr) (a : PyExpr)
-  | call2 (f : FExpr) (a b : PyExpr)
+  | call1 (f : Func) (a : PyExpr)
+  | call2 (f : Func) (a b : PyExpr)
 deriving Repr
 
 /-- result of evaluating a python expression: still a raw value, or an operator tree -/
@@ -891,15 +1096,6 @@ def build : PyExpr → R Built
       | _, _ => .error .unsupported
 
 /-! ### notions used in the statements -/
-
-/-- forget the Jacobian -/
-def strip : Value → Value
-  | .ad a => .vec (vals a)
-  | v => v
-
-def Value.isAd : Value → Bool
-  | .ad _ => true
-  | _ => false
 
 /-- number, vector, matrix or AdArray (not a slicer) -/
 def Value.isData : Value → Bool
